@@ -460,10 +460,71 @@ pub fn gen_request(
     (json!({"t": "req", "id": id, "method": method, "params": params, "pclass": pclass}), pclass)
 }
 
+/// Seeded corruption of a text: the property quantifies over *every* document text, valid or
+/// not.  All cuts are on char boundaries (the text must stay valid UTF-8 to travel in JSON).
+pub fn mutate_text(rng: &mut Rng, text: &str) -> String {
+    let snippets = [
+        "\"", "'", "/", "%", "<", ">", "{", "}", "(", ")", "[", "]", ";", ":", "|", "^", "@", "=", "::",
+        "\u{e9}", "\u{1F600}", "\u{2603}", "\r", "\n", "\r\n", "\t", " ", "%scanner X {", "%%", "// c\n", "/*", "*/",
+        "\u{feff}", "%on A %enter B", "%start", "<INITIAL>", "\\", "?=", "?!", "%nt_type A = B::C", "\u{0}",
+    ];
+    let mut chars: Vec<char> = text.chars().collect();
+    let n_mut = 1 + rng.below(3);
+    for _ in 0..n_mut {
+        let len = chars.len();
+        match rng.below(7) {
+            0 if len > 0 => {
+                // delete a span
+                let a = rng.usize_below(len);
+                let b = (a + 1 + rng.usize_below(12)).min(len);
+                chars.drain(a..b);
+            }
+            1 | 2 => {
+                let at = rng.usize_below(len + 1);
+                let sn: Vec<char> = rng.pick(&snippets).chars().collect();
+                for (i, c) in sn.into_iter().enumerate() {
+                    chars.insert(at + i, c);
+                }
+            }
+            3 if len > 0 => {
+                // duplicate a line
+                let s: String = chars.iter().collect();
+                let lines: Vec<&str> = s.split_inclusive('\n').collect();
+                let i = rng.usize_below(lines.len());
+                let mut out = String::new();
+                for (j, l) in lines.iter().enumerate() {
+                    out.push_str(l);
+                    if j == i {
+                        out.push_str(l);
+                    }
+                }
+                chars = out.chars().collect();
+            }
+            4 if len > 0 => {
+                chars.truncate(rng.usize_below(len));
+            }
+            5 => {
+                // change the line-ending convention
+                let s: String = chars.iter().collect();
+                let to = *rng.pick(&["\r\n", "\r", "\n\r"]);
+                chars = s.replace("\r\n", "\n").replace('\n', to).chars().collect();
+            }
+            _ if len > 1 => {
+                // swap two adjacent chars
+                let a = rng.usize_below(len - 1);
+                chars.swap(a, a + 1);
+            }
+            _ => {}
+        }
+    }
+    chars.into_iter().collect()
+}
+
 pub struct C30Config {
     pub max_docs: usize,
     pub max_edits: usize,
     pub max_requests: usize,
+    pub mutate: bool,
 }
 
 pub fn gen_c30(rng: &mut Rng, corpus: &Corpus, cfg: &C30Config) -> Value {
@@ -479,7 +540,7 @@ pub fn gen_c30(rng: &mut Rng, corpus: &Corpus, cfg: &C30Config) -> Value {
         // the client's answer to the server's registerCapability request
         ops.push(json!({"t": "resp", "id": 1000}));
     }
-    let mut text_of: Vec<Option<(String, usize)>> = vec![None; n_docs];
+    let mut text_of: Vec<Option<(String, usize, bool)>> = vec![None; n_docs];
     let mut version = vec![0i64; n_docs];
     let mut edits_left = n_edits;
     let mut reqs_left = n_reqs;
@@ -500,11 +561,15 @@ pub fn gen_c30(rng: &mut Rng, corpus: &Corpus, cfg: &C30Config) -> Value {
             } else {
                 *rng.pick(&usable)
             };
-            let text = instantiate(&corpus.texts[ti], if rng.chance(1, 2) { 0 } else { rng.below(50) });
+            let mut text = instantiate(&corpus.texts[ti], if rng.chance(1, 2) { 0 } else { rng.below(50) });
+            let mutated = cfg.mutate && rng.chance(1, 3);
+            if mutated {
+                text = mutate_text(rng, &text);
+            }
             version[d] += 1;
             let kind = if text_of[d].is_none() { "open" } else { "change" };
-            ops.push(json!({"t": kind, "uri": uri(d), "version": version[d], "text": text, "src": corpus.texts[ti].name}));
-            text_of[d] = Some((text, ti));
+            ops.push(json!({"t": kind, "uri": uri(d), "version": version[d], "text": text, "src": corpus.texts[ti].name, "mutated": mutated}));
+            text_of[d] = Some((text, ti, mutated));
         } else if reqs_left > 0 && any_open {
             reqs_left -= 1;
             if rng.chance(1, 7) {
@@ -513,7 +578,7 @@ pub fn gen_c30(rng: &mut Rng, corpus: &Corpus, cfg: &C30Config) -> Value {
             }
             let open_docs: Vec<usize> = (0..n_docs).filter(|d| text_of[*d].is_some()).collect();
             let d = *rng.pick(&open_docs);
-            let (text, ti) = text_of[d].clone().unwrap();
+            let (text, ti, mutated) = text_of[d].clone().unwrap();
             let known = corpus
                 .classes
                 .get(&(ti, max_k))
@@ -521,7 +586,11 @@ pub fn gen_c30(rng: &mut Rng, corpus: &Corpus, cfg: &C30Config) -> Value {
                 .unwrap_or(Value::Null);
             let (mut op, _) = gen_request(rng, id, &uri(d), &text, &known);
             op["src"] = json!(corpus.texts[ti].name);
-            op["tclass"] = json!(corpus.classes.get(&(ti, max_k)).map(|c| c.class.clone()).unwrap_or_default());
+            op["tclass"] = if mutated {
+                json!("mutated")
+            } else {
+                json!(corpus.classes.get(&(ti, max_k)).map(|c| c.class.clone()).unwrap_or_default())
+            };
             id += 1;
             ops.push(op);
         } else {
